@@ -108,6 +108,11 @@ class LatticeInput(CellModifierInput):
             cells = self._problem.cells
             if self._lattice:
                 self._check_redundant_definitions()
+                if len(self._lattice) > len(cells):
+                    raise MalformedInputError(
+                        self._input,
+                        f"The lattice input gives {len(self._lattice)} values for {len(cells)} cells",
+                    )
                 for cell, lattice in itertools.zip_longest(
                     cells, self._lattice, fillvalue=None
                 ):
